@@ -57,6 +57,7 @@ type Walk struct {
 		Key   string `json:"key"`
 		Hash  int    `json:"hash"`
 		Shape Shape  `json:"shape"`
+		DForm string `json:"dform"` // the form the bytes of a log list / blob are signed in (ExactBytes; "" = plain)
 	} `json:"base"`
 	Calls []HCall `json:"calls"`
 	Idx   *int    `json:"idx,omitempty"`
@@ -378,6 +379,10 @@ func (s *hsession) presentation(route string, hc *HCall, base *fields, val []byt
 		r.infra("history: presented (%s, %d, %d) but the specification presents (%s, %d, %d) in %+v", p.key.typ, p.hash, p.sig, c.PKey, c.PHash, c.PSig, c.C)
 		return nil
 	}
+	if (base.kind == "Blob" || base.kind == "LogList") && c.PForm != "" && p.f.dform != c.PForm {
+		r.infra("history: data presented in form %q but the specification presents form %q in %+v", p.f.dform, c.PForm, c.C)
+		return nil
+	}
 	hp := &hpres{p: p, class: c.mutClass()}
 	hp.pm, hp.pmOK = p.f.msg()
 	rv := hp.pmOK && refVerify(p.key.pub, p.hash, p.sig, hp.pm, p.val)
@@ -468,7 +473,8 @@ func (s *hsession) entryPoints(route string, hc *HCall, hp *hpres) []ep {
 			add("SignatureVerifier.VerifySignature[kept]", hc.Expect, func() error { return ll.sv.VerifySignature(o.msg.b, o.ds) })
 		}
 	case "LogList":
-		add("loglist3.NewFromSignedJSON", hc.Expect, func() error {
+		// (clause ListIsJSON: signed bytes that are not a JSON text are refused by the parser)
+		add("loglist3.NewFromSignedJSON", hc.wantList(), func() error {
 			got, err := loglist3.NewFromSignedJSON(o.data.b, o.ds.Signature, p.key.pub)
 			if err != nil {
 				return err
@@ -620,7 +626,20 @@ func (s *hsession) routes() []hroute {
 		}
 		return out
 	}
-	return []hroute{{"", w.baseline(kind, false), nil}}
+	b := w.baseline(kind, false)
+	if kind == "Blob" || kind == "LogList" {
+		// handed over as bytes: signed in the session's form; a blob is made a document every form of which differs
+		if kind == "Blob" {
+			b.ensureText(w.rng)
+		}
+		g, err := b.inForm(s.wk.Base.DForm)
+		if err != nil {
+			s.r.infra("history: baseline in form %s: %v", s.wk.Base.DForm, err)
+			return nil
+		}
+		b = g
+	}
+	return []hroute{{"", b, nil}}
 }
 
 func (s *hsession) run() {
@@ -778,7 +797,8 @@ const histRule = "sessions exported by TLC from SigVerifyHist.tla (one signed ob
 	"(SCT/STH/DigitallySigned structs, byte buffers, chain slice, long-lived verifiers and LogInfo), route by route (plain, embedded, " +
 	"synthetic), one session after the other on one goroutine: every call must return what the decision table says for it alone and " +
 	"leave its arguments as they were; ctutil.LeafHash must be a function of (chain, timestamp, embedded) that tells different " +
-	"entries apart; NewFromSignedJSON must return the list it was handed; non-trivial = distinct (entry point, kind, key family, " +
+	"entries apart; NewFromSignedJSON must return the list it was handed; log lists and blobs are signed in one form of their bytes " +
+	"(plain, BOM / white space in front, white space / NUL behind, CRLF, letter case, re-serialised JSON) and presented in others on the same buffers; non-trivial = distinct (entry point, kind, key family, " +
 	"previous mutation class > mutation class, expected verdict)"
 
 func loadWalks(t *testing.T) []Walk {
